@@ -318,7 +318,8 @@ func joinTokens(toks []string, st *styler) string {
 		// a line may also be continued in the middle of a token: the pieces are joined as they are
 		if st != nil && len(tk) >= 2 && st.next()%4 == 0 {
 			p := 1 + int(st.next())%(len(tk)-1)
-			if tk[p-1] != ' ' && tk[p-1] != '\t' && tk[p-1] != '\\' && tk[p] != ' ' && tk[p] != '\t' && tk[p] != '#' && tk[p] != '`' {
+			// (also directly behind a backslash that belongs to the text: exactly the continuation backslash is removed)
+			if tk[p-1] != ' ' && tk[p-1] != '\t' && tk[p] != ' ' && tk[p] != '\t' && tk[p] != '#' && tk[p] != '`' {
 				tk = tk[:p] + "\\\n" + tk[p:]
 			}
 		}
